@@ -73,6 +73,7 @@ type ipamPod struct {
 	RepV4     string
 	RepV6     string
 	GoneAt    int // reconcile counter when (gone && DelDone && Flushed) became true
+	AddFailed bool // the latest ADD failed (the agent rolled it back)
 }
 
 type ipamMon struct {
@@ -400,7 +401,7 @@ func (m *ipamMon) observeRuntime(before, after *v1beta1.NodeRuntime) {
 		if p == nil {
 			continue // a uid the kubelet simulator never had (generated initial record)
 		}
-		if !p.DelDone && p.Exists {
+		if !p.DelDone && p.Exists && !p.AddFailed {
 			m.violate("C03", "C03.teardown-reported-without-del", "pod-exists", fmt.Sprintf("NodeRuntime reports teardown of %s (uid %s) although no DEL was processed for it and the pod still exists", st.PodID, uid))
 		}
 		if !p.DelDone && !p.Exists {
@@ -792,6 +793,9 @@ func (h *ipamHist) afterInitial() {
 		for _, p := range run {
 			p.Sandbox = false
 			h.cniAdd(p) // sets Sandbox on success; a failed replay leaves the pod for a later ADD retry
+			if p.Sandbox {
+				h.writePod(p) // kubelet reports the addresses the sandbox got
+			}
 		}
 		h.flush()
 	}
@@ -944,8 +948,10 @@ func (h *ipamHist) cniAdd(p *ipamPod) {
 	h.mon.now()
 	if err != nil {
 		h.mon.ev("cni ADD %s failed: %.60v", p.Name, err)
+		p.AddFailed = true // the agent rolls a failed ADD back: that is a teardown it processed
 		return
 	}
+	p.AddFailed = false
 	g4, g6, _ := addrsOf(reply.NetConfs)
 	h.mon.ev("cni ADD %s -> %s/%s", p.Name, addrStr(g4), addrStr(g6))
 	// agent read-back must be what the record binds to this pod
